@@ -47,6 +47,10 @@ def configs(tier, seed):
         _cfg((3, 3, 1), [(2, 2, 2)], 1, "float32", "float32", slay="gzip", dlay="flat", via_main=True),
         _cfg((2, 2, 2), [(2, 2, 2)], 1, "uint8", "uint32", denc="compressed_segmentation", copy_info=False, cost=6),
         _cfg((4, 1, 3), [(2, 1, 1), (4, 1, 2)], 2, "uint8", "uint8", slay="flat", dlay="sharded", via_main=True),
+        # sharded destinations / sources with other sharding parameters (gzip index and data, several minishards per shard)
+        _cfg((4, 4, 2), [(2, 2, 2)], 1, "uint16", "uint16", dlay="sharded", shspec=(2, 0, 0, "gzip", "raw"), cost=3),
+        _cfg((4, 2, 2), [(2, 2, 2)], 1, "uint8", "uint8", dlay="sharded", shspec=(1, 1, 1, "gzip", "gzip"), cost=3),
+        _cfg((4, 2, 2), [(2, 2, 2)], 1, "uint8", "uint16", slay="sharded", dlay="gzip", shspec=(1, 0, 0, "gzip", "gzip"), cost=3),
         # strongly anisotropic chunk sizes (every pair of axes differs)
         _cfg((2, 4, 4), [(2, 4, 1)], 1, "uint16", "uint16", dlay="flat"),
         _cfg((4, 2, 4), [(1, 2, 4), (4, 1, 2)], 1, "uint8", "uint8", dlay="gzip"),
@@ -74,8 +78,9 @@ def _info(cfg, dtype, enc, layout):
         if enc == "compressed_segmentation":
             sc["compressed_segmentation_block_size"] = [2, 2, 2]
         if layout == "sharded":
-            sc["sharding"] = {"@type": "neuroglancer_uint64_sharded_v1", "minishard_bits": 1, "shard_bits": 1, "preshift_bits": 0,
-                              "hash": "identity", "minishard_index_encoding": "raw", "data_encoding": "raw"}
+            m, s_, p_, ienc, denc_ = cfg.get("shspec", (1, 1, 0, "raw", "raw"))
+            sc["sharding"] = {"@type": "neuroglancer_uint64_sharded_v1", "minishard_bits": m, "shard_bits": s_, "preshift_bits": p_,
+                              "hash": "identity", "minishard_index_encoding": ienc, "data_encoding": denc_}
         scales.append(sc)
         size = [-(-s // 2) for s in size]
     return dict(type="image", data_type=dtype, num_channels=cfg["C"], scales=scales)
